@@ -426,6 +426,22 @@ def run_history(res, rng, model):
                 history.append(["postponed", done])
                 ops_done.append("postponed")
                 res.count("overlapping-batches-of-two-functions")
+            elif 0.5 <= u_ < 0.6 and len(enames) >= 4:
+                # re-grouping inside ONE batch that keeps the number of groups: tie a pair of edges, then in a single
+                # batch untie it and tie a disjoint pair instead
+                rpar = rng.choice(pars + ["length"])
+                e4 = rng.sample(enames, 4)
+                v1, v2 = round(rng.uniform(0.05, 0.9), 4), round(rng.uniform(0.05, 0.9), 4)
+                lf.set_param_rule(rpar, edges=e4[:2], is_independent=False, init=v1)
+                float(lf.lnL)
+                with lf.updates_postponed():
+                    lf.set_param_rule(rpar, edge=e4[0], init=round(rng.uniform(0.05, 0.9), 4))
+                    lf.set_param_rule(rpar, edge=e4[1], init=round(rng.uniform(0.05, 0.9), 4))
+                    lf.set_param_rule(rpar, edges=e4[2:], is_independent=False, init=v2)
+                history.append(["regroup-in-batch", rpar, e4[:2], e4[2:]])
+                ops_done.append("regroup-in-batch")
+                known_bounds.pop(rpar, None)
+                res.count("regroup-in-one-batch")
             elif postponed:
                 with lf.updates_postponed():
                     done = [one_op(rng) for _ in range(rng.randint(2, 4))]
@@ -741,5 +757,5 @@ def run_case(case):
 
 
 def required(counters, tier):
-    need = ["change:undo-branch", "change:no-undo-branch", "change:exception-path", "change:without-undo-buffer", "history-op:postponed", "history-op:aln", "history-op:mprobs", "history-op:indep", "history-op:clade", "rules-roundtrip", "optimise-runs", "long-lived-vs-new-calculator"]
+    need = ["regroup-in-one-batch", "change:undo-branch", "change:no-undo-branch", "change:exception-path", "change:without-undo-buffer", "history-op:postponed", "history-op:aln", "history-op:mprobs", "history-op:indep", "history-op:clade", "rules-roundtrip", "optimise-runs", "long-lived-vs-new-calculator"]
     return [n for n in need if not counters.get(n)]
